@@ -90,6 +90,7 @@ BASE_NAMES = ('a', 'n', 't', 'p')
 WATCHDOG_S = 2          # CPU seconds of this process (ITIMER_VIRTUAL); a normal evaluation takes ~5 ms
 WATCHDOG_REPEAT_S = 0.25
 INPUT_NAME = 'src_'
+N_REACH_SHARDS = {'quick': 6, 'thorough': 16}
 
 
 def plan(tier, seed):
@@ -97,6 +98,8 @@ def plan(tier, seed):
     shards = [{'mode': 'mix', 'seed': seed, 'shard': i, 'of': k, 'n_random': N_RANDOM[tier] // k,
                'n_t': N_T[tier] // k, 'n_nfkc': N_NFKC[tier] // k} for i in range(k)]
     shards.append({'mode': 'child', 'seed': seed})
+    r = N_REACH_SHARDS[tier]
+    shards += [{'mode': 'reach', 'seed': seed, 'shard': i, 'of': r, 'tier': tier} for i in range(r)]
     return shards
 
 
@@ -325,10 +328,12 @@ def alert_message(result):
         return None
 
 
-def check_route(acc, case, route, textroute=False):
-    obs, out, user, extra = run_route(case, route, textroute)
+def check_route(acc, case, route, textroute=False, run=None):
+    """``run``: another way to take the case through the real code (the reach sweep: one model per
+    configuration, the expression arrives in the input); the judging is the same"""
+    obs, out, user, extra = (run or run_route)(case, route, textroute)
     acc.evaluations += 1
-    rname = route + ('-text' if textroute else '')
+    rname = case.get('rname') or route + ('-text' if textroute else '')
     acc.count('route:' + rname)
     acc.count('kind:' + case['kind'])
     if obs is None:
@@ -495,6 +500,8 @@ def run_shard(desc, acc):
         setup_process()
         if desc['mode'] == 'child':
             run_children(desc, acc)
+        elif desc['mode'] == 'reach':
+            run_reach(desc, acc)
         else:
             run_mix(desc, acc)
     finally:
@@ -558,6 +565,492 @@ def run_mix(desc, acc):
         if i == 1:
             acc.sample({'kind': case['kind'], 'expr': case['expr'], 'expected': repr(expected_value(
                 case, user_names(case, 'const', S.Probe())))[:120]})
+
+
+# ------------------------------------------------------------------------------ attribute-reachability sweep
+# The values TatSu itself binds in the AST are live objects (AST / Node -> parseinfo -> cursor -> input -> config ...).
+# Whatever an expression can reach from a bound name along attribute names the evaluator's checker lets through
+# (anything not starting with '__') is read and, if callable, called - through a real parse, under the same monitors
+# and the same verdict as every other case.
+REACH_DEPTH = {'quick': 10, 'thorough': 12}       # the graph reached on the tree of 2026-09 is complete at depth 10
+REACH_CAP = {'quick': 4000, 'thorough': 40000}           # paths per configuration
+REACH_ALERT_EVERY = {'quick': 8, 'thorough': 1}
+REACH_ITER_DEPTH = {'quick': 1, 'thorough': 8}
+REACH_CONTROL_EVERY = 200
+REACH_INPUTS = ('str', 'buffer', 'textlines')
+REACH_INPUT_CLASSES = {'buffer': ('tatsu.input.buffer', 'Buffer'), 'textlines': ('tatsu.input.textlines', 'TextLines')}
+REACH_HEAD = '42,69 7 10 11 1 2 (4,5) 6,7 | '
+REACH_CONTROL = ('len(l) * 100 + len(k) * 10 + len(b) + n', 214)
+REACH_F, REACH_T = 'vt_c17_reach_F.txt', 'vt_c17_reach_T.txt'
+REACH_MARK = 'VT-C17-REACH-MARKER\n'
+# §F: the scratch file that exists and holds the marker; §T: a path in the scratch directory that does not exist
+REACH_ARGS = ['', '§F', '§T', "§F, 'r'", "§T, 'w'", "'/', §F", '§F, §F', '0', "'x'", "'x', 'y'", "§F, 'x', 'y'"]
+REACH_ARGS_THOROUGH = REACH_ARGS + ['§F, 0', '§F, §T', '§T, §F', 'None', '-1', '0, 0', "'x', 0", '[§F]', 'b', 'l', 'a',
+                                    "§F, 'rb'", "§T, 'x'", "'.', §F", '§F, None', '0, §F']
+REACH_FORMS = [('len(§)', '|len'), ('sorted(§)', '|sorted'), ('[b for b in §]', '|iter')]
+# audit events raised by code of the real package (or the library) BELOW the expression's frame that are introspection by
+# that code, not the expression opening/importing/running/reaching anything: recorded, not blocked, counted, not judged
+REACH_UNJUDGED_EVENTS = ('sys._getframe', 'sys._current_', 'object.__getattr__', 'object.__setattr__', 'object.__delattr__',
+                         'gc.', 'array.__new__')
+
+
+def reach_configs(tier):
+    out = [{'input': inp, 'parseinfo': pi, 'typed': typed, 'text': False}
+           for typed in (False, True) for inp in REACH_INPUTS for pi in (False, True)]
+    # the same grammar as text through tatsu.compile (`pair::Pair = x:num y:num ;`)
+    texts = [('buffer', True), ('str', False)] if tier == 'quick' else [(i, t) for t in (False, True) for i in REACH_INPUTS]
+    out += [{'input': inp, 'parseinfo': True, 'typed': typed, 'text': True} for inp, typed in texts]
+    for c in out:
+        c['id'] = '/'.join([c['input'], 'parseinfo' if c['parseinfo'] else 'noparseinfo', 'model' if c['typed'] else 'ast']
+                           + (['text'] if c['text'] else []))
+    return out
+
+
+def reach_grammar(typed, place):
+    """start = a:pair b:num g:(num num) l:{num} o:over k:{pair} n:`3` '|' src_:/(?s).+/ X $ ;  X evaluates the text bound to
+    src_ with every name of the rule in the AST; pair is a typed rule in the model configurations (few rule calls: the
+    model builder semantics is the expensive part of a parse)"""
+    tail = L.Alert('{' + INPUT_NAME + '}', 2) if place == 'alert' else L.Over(L.Const('{' + INPUT_NAME + '}'))
+    d, num = L.Pat(r'\d+'), L.Call('num')
+    items = [L.Named('a', L.Call('pair')), L.Named('b', num), L.Named('g', L.Seq((num, num))), L.Named('l', L.Clo(num)),
+             L.Named('o', L.Call('over')), L.Named('k', L.Clo(L.Call('pair'))), L.Named('n', L.Const('3')), L.Tok('|'),
+             L.Named(INPUT_NAME, L.Pat('(?s).+')), tail, L.EOF()]
+    return L.Grammar([L.Rule('start', L.Seq(tuple(items))),
+                      L.Rule('pair', L.Seq((L.Named('x', d), L.Tok(','), L.Named('y', d))), params=('Pair',) if typed else ()),
+                      L.Rule('over', L.Seq((L.Tok('('), L.Over(L.Call('pair')), L.Tok(')')))),
+                      L.Rule('num', d)])
+
+
+def reach_grammar_text(typed, place):
+    tail = ('^^`{%s}`' if place == 'alert' else '@:`{%s}`') % INPUT_NAME
+    return (f"start = a:pair b:num g:(num num) l:{{num}}* o:over k:{{pair}}* n:`3` '|' {INPUT_NAME}:/(?s).+/ {tail} $ ;\n"
+            f"pair{'::Pair' if typed else ''} = x:/\\d+/ ',' y:/\\d+/ ;\nover = '(' @:pair ')' ;\nnum = /\\d+/ ;\n")
+
+
+def vt_peek(path):
+    """harness callable for the attribution control: it opens the file several frames below the expression"""
+    import pathlib
+    return pathlib.Path(path).read_text()
+
+
+class ReachSem:
+    def safe_context(self):
+        return {'vt_peek': vt_peek}
+
+
+def reach_arity(obj):
+    """number of positional parameters without default (None: not known)"""
+    import inspect
+    try:
+        ps = list(inspect.signature(obj).parameters.values())
+    except Exception:  # noqa: BLE001
+        return None
+    return sum(1 for q in ps if q.default is q.empty and q.kind in (q.POSITIONAL_ONLY, q.POSITIONAL_OR_KEYWORD))
+
+
+def reach_walk(user, maxdepth, cap):
+    """breadth-first from every bound value along the attribute names the checker allows and into items of
+    lists/tuples/dicts; de-duplicated on (type of the object, attribute) - classes and modules on (object, attribute).
+    -> (entries, stats); an entry: expr, chain (type names and attribute names only), depth, callable, iterable, obj"""
+    import collections
+    import types
+    seen, entries, stats = set(), [], collections.Counter()
+    queue = collections.deque()
+
+    def add(expr, chain, obj, depth):
+        entries.append({'expr': expr, 'chain': '>'.join(chain) if chain else type(obj).__name__, 'depth': depth, 'obj': obj,
+                        'callable': callable(obj), 'iterable': hasattr(obj, '__iter__') or hasattr(obj, '__len__'),
+                        'type': type(obj).__name__, 'arity': reach_arity(obj) if callable(obj) else None})
+        queue.append((expr, chain, obj, depth))
+
+    for name in sorted(user):
+        add(name, (), user[name], 0)
+    while queue:
+        expr, chain, obj, depth = queue.popleft()
+        if depth >= maxdepth:
+            stats['at_depth_limit'] += 1
+            continue
+        if isinstance(obj, type):
+            base, tname = ('is', id(obj)), 'type:' + obj.__name__
+        elif isinstance(obj, types.ModuleType):
+            base, tname = ('is', id(obj)), 'module:' + obj.__name__
+        else:
+            base, tname = ('type', type(obj)), type(obj).__name__
+        steps = []
+        try:
+            names = sorted(n for n in dir(obj) if isinstance(n, str) and not n.startswith('__'))
+        except BaseException:  # noqa: BLE001 - a live object of the real code: anything may happen
+            names = []
+            stats['dir_raises'] += 1
+        for n in names:
+            if (base, n) in seen:
+                continue
+            seen.add((base, n))
+            if not n.isidentifier():
+                continue
+            try:
+                child = getattr(obj, n)
+            except BaseException:  # noqa: BLE001
+                stats['getattr_raises'] += 1
+                continue
+            steps.append((f'{expr}.{n}', f'{tname}.{n}', child))
+        try:
+            if isinstance(obj, (list, tuple)) and len(obj):
+                k = (base, '[0]', type(obj[0]))
+                if k not in seen:
+                    seen.add(k)
+                    steps.append((f'{expr}[0]', f'{tname}[0]', obj[0]))
+            elif isinstance(obj, dict):
+                for key in sorted(k for k in obj if isinstance(k, str))[:8]:
+                    k = (base, '[k]', key)
+                    if k not in seen:
+                        seen.add(k)
+                        steps.append((f'{expr}[{key!r}]', f'{tname}[{key!r}]', obj[key]))
+        except BaseException:  # noqa: BLE001
+            stats['subscript_raises'] += 1
+        for e, c, child in steps:
+            if len(entries) >= cap:
+                stats['capped'] += 1
+                continue
+            add(e, chain + (c,), child, depth + 1)
+    return entries, stats
+
+
+def reach_expressions(entries, tier):
+    """-> [(entry, expression template, chain of the mechanism, form, key)]; key = (chain, what is done to the reached
+    object): the same mechanism whatever the configuration and the name the chain starts from"""
+    pool = REACH_ARGS if tier == 'quick' else REACH_ARGS_THOROUGH
+    out = []
+    for e in entries:
+        out.append((e, e['expr'], e['chain'], 'read', (e['chain'], '')))
+        if e['callable']:
+            args = list(pool)
+            n = e['arity']
+            if n is not None and 3 <= n <= 12:
+                # argument lists of the callable's own arity (the pool stops at three)
+                fitted = [', '.join(['§F'] * n), ', '.join(['0'] * n), ', '.join(['§F', '§F'] + ['0'] * (n - 2)),
+                          ', '.join(['0', '0'] + ['§F'] * (n - 2))]
+                args += [a for a in fitted if a not in args]
+            out += [(e, f'{e["expr"]}({a})', e['chain'] + '()', 'call', (e['chain'], f'({a})')) for a in args]
+        if e['iterable'] and e['depth'] <= REACH_ITER_DEPTH[tier]:
+            out += [(e, form.replace('§', e['expr']), e['chain'] + tag, 'iter', (e['chain'], tag)) for form, tag in REACH_FORMS]
+    return out
+
+
+def reach_owners(plans):
+    """quick tier: a mechanism (chain, what is done) reached in several configurations is evaluated in one of them,
+    chosen by hash among the configurations that reach it -> {key: configuration id}"""
+    where = {}
+    for cfg, _entries, exprs in plans:
+        for x in exprs:
+            where.setdefault(x[4], []).append(cfg['id'])
+    return {k: ids[h64('C17', 'reach-owner', k) % len(ids)] for k, ids in where.items()}
+
+
+class ReachAcc:
+    """the accumulator check_route writes to for one reach case: the same counters; violations are re-signed by
+    mechanism (effect + chain of type and attribute names) and kept once per signature and shard"""
+
+    def __init__(self, acc):
+        self.acc = acc
+        self.seen = set()
+        self.cfg = self.chain = self.wit = None
+        self.sigs = []
+
+    def begin(self, cfg, chain, wit):
+        self.cfg, self.chain, self.wit, self.sigs = cfg, chain, wit, []
+
+    @property
+    def evaluations(self):
+        return self.acc.evaluations
+
+    @evaluations.setter
+    def evaluations(self, v):
+        self.acc.evaluations = v
+
+    def count(self, name, n=1):
+        self.acc.count(name, n)
+
+    def peak(self, name, v):
+        self.acc.peak(name, v)
+
+    def nontriv(self, *parts):
+        self.acc.nontriv('reach', self.cfg, *parts)
+
+    def sample(self, s):
+        self.acc.sample(s)
+
+    def note(self, s):
+        self.acc.note(s)
+
+    def violation(self, sig, what, _wit):
+        eff = sig.removeprefix('effect:')
+        if sig == 'call-outside-set' or (sig.startswith('effect:') and eff.startswith(REACH_UNJUDGED_EVENTS)):
+            # the callable is an attribute of an AST value (a static method of a builtin type has no __self__ to tell);
+            # REACH_UNJUDGED_EVENTS: see there
+            self.acc.count(f'reach_unjudged:{eff}:{self.chain}')
+            return
+        rsig = f'reach/{eff}/{self.chain}'
+        self.sigs.append(rsig)
+        self.acc.count('reach_violations')
+        self.acc.count('reach_violations_cfg:' + self.cfg)
+        if rsig in self.seen:
+            self.acc.violation_count += 1           # counted; one witness per mechanism is kept
+            self.acc.count('violations:' + rsig)
+            return
+        self.seen.add(rsig)
+        also = [c for c in self.wit['reach']['reached_in'] if c != self.cfg]
+        self.acc.violation(rsig, f'[reach {self.cfg}] {what}' + (f' (the same chain is reached in {", ".join(also)})' if also else ''),
+                           self.wit)
+
+
+class Reach:
+    """harness side of the sweep: configurations, one model per (configuration, placement), discovery"""
+
+    def __init__(self, tier, acc):
+        import importlib
+        self.tier, self.acc = tier, acc
+        self.models, self.user, self.entries, self.unavailable, self.chain_cfgs = {}, {}, {}, {}, {}
+        self.tmp = None
+        base = os.getcwd()
+        if not os.environ.get('VT_SCRATCH'):
+            import tempfile
+            base = self.tmp = tempfile.mkdtemp(prefix='vt-c17-reach-')
+        self.F, self.T = os.path.join(base, REACH_F), os.path.join(base, REACH_T)
+        with open(self.F, 'w') as f:
+            f.write(REACH_MARK)
+        self.classes = {}
+        for kind, (mod, name) in REACH_INPUT_CLASSES.items():
+            try:
+                self.classes[kind] = getattr(importlib.import_module(mod), name)
+            except Exception as e:  # noqa: BLE001 - an internal name: unobserved, never an alarm
+                acc.note(f'reach: {mod}.{name} is not there ({type(e).__name__}): configurations with that input are not run')
+        self.cfgs = {c['id']: c for c in reach_configs(tier)}
+
+    def close(self):
+        if self.tmp:
+            import shutil
+            shutil.rmtree(self.tmp, ignore_errors=True)
+
+    def fill(self, template):
+        return template.replace('§F', repr(self.F)).replace('§T', repr(self.T))
+
+    def model(self, cfg, place):
+        key = (cfg['id'], place)
+        if key not in self.models:
+            if cfg['text']:
+                import tatsu
+                self.models[key] = tatsu.compile(reach_grammar_text(cfg['typed'], place))
+            else:
+                self.models[key] = L.to_model(reach_grammar(cfg['typed'], place))
+        return self.models[key]
+
+    def make_input(self, cfg, text):
+        return text if cfg['input'] == 'str' else self.classes[cfg['input']](text)
+
+    def kwargs(self, cfg):
+        return {'parseinfo': cfg['parseinfo']} | ({'asmodel': True} if cfg['typed'] else {})
+
+    def capture(self, cfg):
+        """the names bound when the constant is evaluated = the locals of the frame of the expression's code, taken
+        by a profile function during one parse of the control expression (harness side, outside the monitors)"""
+        got = []
+
+        def prof(frame, event, arg):
+            if event == 'call' and not got and frame.f_code.co_filename.startswith('<') and INPUT_NAME in frame.f_locals:
+                got.append(dict(frame.f_locals))
+
+        model = self.model(cfg, 'const')
+        inp = self.make_input(cfg, REACH_HEAD + REACH_CONTROL[0])
+        sys.setprofile(prof)
+        try:
+            value = model.parse(inp, **self.kwargs(cfg))
+        finally:
+            sys.setprofile(None)
+        if value != REACH_CONTROL[1] or not got:
+            raise LookupError(f'control expression gave {value!r:.60}, {len(got)} expression frames seen')
+        return {k: v for k, v in got[0].items() if not (k in vars(builtins) and vars(builtins)[k] is v)}
+
+    def discover(self, cfg):
+        """-> entries of the configuration, or None (with a note) when the configuration cannot be run here"""
+        cid = cfg['id']
+        if cid in self.entries or cid in self.unavailable:
+            return self.entries.get(cid)
+        try:
+            if cfg['input'] != 'str' and cfg['input'] not in self.classes:
+                raise LookupError(f'no input class {cfg["input"]}')
+            user = self.capture(cfg)
+        except Exception as e:  # noqa: BLE001
+            self.unavailable[cid] = f'{type(e).__name__}: {e}'
+            self.acc.note(f'reach: configuration {cid} not run: {type(e).__name__}: {str(e)[:120]}')
+            return None
+        entries, stats = reach_walk(user, REACH_DEPTH[self.tier], REACH_CAP[self.tier])
+        # the expression reaches these callables as attributes of AST values (methods - the CALL event of `v.m()` shows
+        # the plain function with v as first argument -, static methods, classes kept in fields), so calling them is
+        # not "calling a name outside the set": the call is counted, what it does is judged
+        names = dict(user)
+        for e in entries:
+            if e['callable'] and e['depth']:
+                names[f'<{e["chain"]}>'] = e['obj']
+                f = getattr(e['obj'], '__func__', None)
+                if f is not None:
+                    names[f'<{e["chain"]}:function>'] = f
+        self.user[cid], self.entries[cid] = names, entries
+        self.stats = stats
+        return entries
+
+    def run(self, case, route, _textroute=False):
+        cfg = self.cfgs[case['cfg']]
+        model = self.model(cfg, route)
+        inp = self.make_input(cfg, REACH_HEAD + case['actual'])
+        kw = self.kwargs(cfg) | (case.get('kw') or {})
+        obs, out = observe(lambda: model.parse(inp, **kw))
+        self.out = out
+        return obs, out, self.user.get(cfg['id']) or {}, []
+
+    def control(self, cfg):
+        """the state shared by the evaluations of this process still evaluates a safe expression to its value"""
+        case = {'actual': REACH_CONTROL[0], 'cfg': cfg['id']}
+        for attempt in (0, 1):
+            _obs, out, _u, _x = self.run(case, 'const')
+            if out[:2] == ('ok', REACH_CONTROL[1]):
+                self.acc.count('reach_control_ok')
+                return
+            self.acc.count('reach_control_failed')
+            self.acc.note(f'reach: control expression gave {out[:3]!r:.160} in {cfg["id"]}: models rebuilt')
+            self.models.clear()
+        raise RuntimeError(f'reach: the control expression no longer evaluates in {cfg["id"]}: {out[:3]!r:.200}')
+
+    def attribution_control(self):
+        """an `open` several frames below the expression's frame (harness callable bound by safe_context) is attributed
+        to the expression by the monitors"""
+        model = L.to_model(reach_grammar(False, 'const'))
+        text = REACH_HEAD + f'vt_peek({self.F!r})'
+        sem = ReachSem()
+        obs, out = observe(lambda: model.parse(text, semantics=sem))
+        if any(e == 'open' for e, _ in obs.effects):
+            self.acc.count('reach_attribution_control_ok')
+        else:
+            self.acc.note(f'reach: attribution control: no open event attributed to the expression, outcome {out[:3]!r:.120}')
+
+
+def reach_outcome(obs, out):
+    if obs is None:
+        return 'unobserved'
+    if obs.blocked:
+        return 'blocked'
+    if out[0] == 'fail':
+        # the evaluator reports a failed expression as a semantic failure; any other failure of the parse after a
+        # call means the call moved the parser (cursor, input, configuration)
+        return 'fail' if 'Error evaluating constant' in out[-1] else 'fail-parse-derailed'
+    if out[0] in ('exc', 'base'):
+        return f'{out[0]}:{out[1]}'
+    return out[0]
+
+
+def reach_one(R, racc, cfg, chain, template, form, place):
+    acc = R.acc
+    case = {'expr': template, 'kind': 'reach', 'bind': {}, 'T': False, 'rname': 'reach-' + place, 'actual': R.fill(template),
+            'cfg': cfg['id']}
+    base = chain.split('|')[0].removesuffix('()')
+    racc.begin(cfg['id'], chain, {'reach': {'cfg': cfg['id'], 'expr': template, 'chain': chain, 'form': form, 'place': place,
+                                          'tier': R.tier, 'reached_in': R.chain_cfgs.get(base, [cfg['id']])}})
+    R.out = None
+    obs = check_route(racc, case, place, run=R.run)
+    acc.count('reach_evaluations')
+    acc.count('reach_form:' + form)
+    res = reach_outcome(obs, R.out or ('unobserved',))
+    acc.count(f'reach_outcome:{form}:{res}')
+    if obs is not None:
+        acc.count('reach_effects_attributed', len(obs.effects))
+        for e, _ in obs.effects:
+            acc.count('reach_effect:' + e)
+        if form == 'call':
+            acc.count('reach_calls')
+            acc.count('reach_calls_executed', 1 if obs.calls else 0)
+        if res == 'fail-parse-derailed':
+            acc.count('reach_unjudged:parse-derailed:' + chain)
+    where = f'[reach-{place}] {template!r}'
+    if os.path.exists(R.T):
+        os.unlink(R.T)
+        racc.violation('effect:file-created', f'{where}: the path §T exists after the evaluation', None)
+    try:
+        with open(R.F) as f:
+            intact = f.read() == REACH_MARK
+    except OSError:
+        intact = False
+    if not intact:
+        racc.violation('effect:file-modified', f'{where}: the scratch file §F was changed or removed by the evaluation', None)
+        with open(R.F, 'w') as f:
+            f.write(REACH_MARK)
+    return obs
+
+
+def run_reach(desc, acc):
+    warm_up()
+    S.ST.unblocked = REACH_UNJUDGED_EVENTS
+    tier, shard, of = desc.get('tier', 'quick'), desc['shard'], desc['of']
+    R = Reach(tier, acc)
+    racc = ReachAcc(acc)
+    try:
+        R.attribution_control()
+        plans = []
+        for ci, cfg in enumerate(R.cfgs.values()):
+            entries = R.discover(cfg)
+            mine = ci % of == shard            # the shard that owns the configuration counts what discovery found
+            if entries is None:
+                if mine:
+                    acc.count('reach_configurations_unavailable')
+                continue
+            exprs = reach_expressions(entries, tier)
+            plans.append((cfg, entries, exprs))
+            for e in entries:
+                R.chain_cfgs.setdefault(e['chain'], []).append(cfg['id'])
+            if mine:
+                cid = cfg['id']
+                acc.count('reach_configurations')
+                acc.count('reach_objects', len(entries))
+                acc.count('reach_callables', sum(1 for e in entries if e['callable']))
+                acc.count('reach_paths_generated', len(exprs))
+                tnames = sorted({e['type'] for e in entries})
+                acc.count('reach_types', len(tnames))
+                for t in tnames:
+                    acc.count('reach_type:' + t)
+                acc.count(f'reach_cfg:{cid}:objects', len(entries))
+                acc.count(f'reach_cfg:{cid}:types', len(tnames))
+                acc.count(f'reach_cfg:{cid}:expressions', len(exprs))
+                acc.peak('reach_depth_max', max(e['depth'] for e in entries))
+                for k, v in R.stats.items():
+                    acc.count('reach_walk:' + k, v)
+                if ci == 3:
+                    deep = max(entries, key=lambda e: (e['depth'], e['callable']))
+                    acc.sample({'kind': 'reach', 'configuration': cid, 'names': sorted(R.user[cid])[:12],
+                                'deepest': deep['expr'], 'chain': deep['chain']})
+        owners = reach_owners(plans) if tier == 'quick' else None
+        index = 0
+        for cfg, _entries, exprs in plans:
+            ran = 0
+            for _e, template, chain, form, key in exprs:
+                if owners is not None and owners[key] != cfg['id']:
+                    continue            # evaluated in another configuration that reaches the same mechanism
+                index += 1
+                if index % of != shard:
+                    continue
+                reach_one(R, racc, cfg, chain, template, form, 'const')
+                if (index // of) % REACH_ALERT_EVERY[tier] == 0:
+                    reach_one(R, racc, cfg, chain, template, form, 'alert')
+                acc.count(f'reach_cfg:{cfg["id"]}:evaluated')
+                if form == 'call' and template.endswith('()'):
+                    acc.count('reach_callables_called')
+                ran += 1
+                if ran % REACH_CONTROL_EVERY == 0:
+                    R.control(cfg)
+            if ran:
+                R.control(cfg)
+        if shard == 0:
+            acc.count('reach_mechanisms', len(owners) if owners is not None else len({x[4] for p in plans for x in p[2]}))
+    finally:
+        R.close()
 
 
 # ------------------------------------------------------------------------------ unmonitored ground truth
@@ -648,6 +1141,18 @@ def replay(w, acc):
                 CHILD_CASES = keep
             return
         warm_up()
+        if 'reach' in w:
+            r = w['reach']
+            S.ST.unblocked = REACH_UNJUDGED_EVENTS
+            R = Reach('thorough' if r.get('tier') == 'thorough' else 'quick', acc)
+            try:
+                cfg = R.cfgs.get(r['cfg']) or {c['id']: c for c in reach_configs('thorough')}[r['cfg']]
+                R.cfgs[cfg['id']] = cfg
+                if R.discover(cfg) is not None:
+                    reach_one(R, ReachAcc(acc), cfg, r['chain'], r['expr'], r.get('form', 'call'), r.get('place', 'const'))
+            finally:
+                R.close()
+            return
         case = dict(w['case'])
         if w['route'] != 'eval':
             from ..common import Acc
